@@ -8,7 +8,7 @@ What "version-filtered job" and "no intervening write to its checked components"
 namespace Mustache.Versions
 
 /-- the static part of a job -/
-def specOf (J : Job) : JobSpec := ⟨J.req, J.check, J.upd⟩
+def specOf (J : Job) : JobSpec := ⟨J.req, J.check, J.upd, J.afDeny, J.cfSkip⟩
 
 /-- a job that really filters by version: it checks something, and only components it requires -/
 def VersionFiltered (sp : JobSpec) : Prop := sp.check ≠ [] ∧ ∀ c ∈ sp.check, c ∈ sp.req
@@ -21,6 +21,7 @@ def nonInterfering (specs : List JobSpec) (j : Nat) : Op → Bool
   | .getConst _ _ => true
   | .setDefault _ => true
   | .addFn _ _ _ => true
+  | .addDep _ _ => true
   | .getMut _ c | .markDirty _ c =>
     match specs[j]? with
     | some sp => !sp.check.contains c
